@@ -2,7 +2,7 @@
 Contracts for the cardinality rules (C09: "a cardinality warning for an object is reported exactly when
 its current child count lies outside [min, max]") and validation helpers (C08, C19).
 """
-from pyvc.dsl import contract, spec
+from pyvc.dsl import contract, spec, is_ref, is_list
 from contracts.c_util import NF
 
 
@@ -94,4 +94,43 @@ contract('odml/validation.py::object_required_attributes#property',
          ensures=['len(result) == (0 if field(obj, "_name") else 1)',
                   'all(field(result[j], "rank") == "error" and field(result[j], "obj") is obj for j in range(len(result)))'],
          raises={},
+         props=('C08', 'C19'))
+
+
+@spec
+def plain_values(p):
+    # stored values that are plain (not n-tuple lists, not objects)
+    return all(not is_ref(item(field(p, "_values"), j)) and not is_list(item(field(p, "_values"), j))
+               for j in range(llen(field(p, "_values"))))
+
+
+@spec
+def dep_unsatisfied(prop):
+    # "unsatisfied dependency": the dependency names no Property of the same Section, or the
+    # dependency value is not among that Property's values
+    par = field(prop, "_parent")
+    dep = field(prop, "_dependency")
+    if par is None or dep is None:
+        return False
+    props = field(par, "_props")
+    if not any(field(item(props, j), "_name") == dep for j in range(llen(props))):
+        return True
+    return any(field(item(props, j), "_name") == dep and
+               not any(item(field(item(props, j), "_values"), k) == field(prop, "_dependency_value")
+                       for k in range(llen(field(item(props, j), "_values"))))
+               for j in range(llen(props)))
+
+
+contract('odml/validation.py::property_dependency_check',
+         types={'prop': 'BaseProperty'}, pure=True,
+         requires='(field(prop, "_dependency") is None or is_str(field(prop, "_dependency"))) and '
+                  'not is_ref(field(prop, "_dependency_value")) and '
+                  'implies(field(prop, "_parent") is not None, '
+                  'all(plain_values(item(field(field(prop, "_parent"), "_props"), j)) and '
+                  'is_ref(field(item(field(field(prop, "_parent"), "_props"), j), "_values")) '
+                  'for j in range(llen(field(field(prop, "_parent"), "_props")))))',
+         ensures=['len(result) == (1 if dep_unsatisfied(prop) else 0)',
+                  'implies(len(result) == 1, field(result[0], "rank") == "warning" and field(result[0], "obj") is prop)'],
+         raises={},
+         invariants={0: 'dep_obj is None and all(field(item(_it, j), "_name") != dep for j in range(_i))'},
          props=('C08', 'C19'))
